@@ -1,7 +1,423 @@
-//! C20 — not implemented yet.
+//! C20 — format autodetection picks the written format; conversions keep content.
+//!
+//! Alignment: {SAM, SAM.gz, BAM, CRAM}; variant: {VCF, VCF.gz, BCF} — the full set of pairs is
+//! enumerated per generated document. (1) the stream the generic writer produces starts with the
+//! magic of the requested format/compression (independent check); (2) the generic reader, given only
+//! the bytes, returns the written header and records — a mis-detection cannot produce equal records,
+//! so equality decides detection; (3) reader(A) piped into writer(B) and read back (again by
+//! detection) preserves every record at the SAM / VCF data-model level.
 
 use crate::engine::*;
+use crate::r#gen::cram as gcram;
+use crate::r#gen::var as gvar;
+use noodles_sam as sam;
+use noodles_util::{alignment, variant};
+use noodles_vcf as vcf;
+use proptest::prelude::*;
+use serde::{Deserialize, Serialize};
+use std::io;
+
+// ---------------------------------------------------------------------------------------------
+// alignment
+
+#[derive(Clone, Copy, Debug, PartialEq, Eq)]
+pub enum AFmt {
+    Sam,
+    SamGz,
+    Bam,
+    Cram,
+}
+
+pub const AFMTS: [AFmt; 4] = [AFmt::Sam, AFmt::SamGz, AFmt::Bam, AFmt::Cram];
+
+impl AFmt {
+    fn name(self) -> &'static str {
+        match self {
+            AFmt::Sam => "sam",
+            AFmt::SamGz => "sam.gz",
+            AFmt::Bam => "bam",
+            AFmt::Cram => "cram",
+        }
+    }
+}
+
+#[derive(Clone, Debug, Serialize, Deserialize)]
+pub struct AlnCase {
+    pub doc: gcram::CramDoc,
+    /// empty header and no records (the degenerate file of every format)
+    pub empty: bool,
+}
+
+fn write_aln(fmt: AFmt, header: &sam::Header, records: &[Box<dyn sam::alignment::Record>], repo: &noodles_fasta::Repository) -> io::Result<Vec<u8>> {
+    let mut out = Vec::new();
+    {
+        let b = alignment::io::writer::Builder::default().set_reference_sequence_repository(repo.clone());
+        let b = match fmt {
+            AFmt::Sam => b.set_format(alignment::io::Format::Sam).set_compression_method(None),
+            AFmt::SamGz => b.set_format(alignment::io::Format::Sam).set_compression_method(Some(alignment::io::CompressionMethod::Bgzf)),
+            AFmt::Bam => b.set_format(alignment::io::Format::Bam).set_compression_method(Some(alignment::io::CompressionMethod::Bgzf)),
+            AFmt::Cram => b.set_format(alignment::io::Format::Cram).set_compression_method(None),
+        };
+        let mut w = b.build_from_writer(&mut out)?;
+        w.write_header(header)?;
+        for r in records {
+            w.write_record(header, r)?;
+        }
+        w.finish(header)?;
+    }
+    Ok(out)
+}
+
+fn read_aln(bytes: &[u8], repo: &noodles_fasta::Repository) -> io::Result<(sam::Header, Vec<sam::alignment::RecordBuf>)> {
+    // no format, no compression method: detection from the leading bytes alone
+    let mut r = alignment::io::reader::Builder::default().set_reference_sequence_repository(repo.clone()).build_from_reader(bytes)?;
+    let header = r.read_header()?;
+    let mut v = Vec::new();
+    for rec in r.records(&header) {
+        let rec = rec?;
+        v.push(sam::alignment::RecordBuf::try_from_alignment_record(&header, rec.as_ref())?);
+    }
+    Ok((header, v))
+}
+
+fn magic_ok(fmt: AFmt, bytes: &[u8]) -> bool {
+    match fmt {
+        AFmt::Sam => bytes.is_empty() || bytes[0] == b'@' || !bytes.starts_with(&[0x1f, 0x8b]),
+        AFmt::SamGz | AFmt::Bam => bytes.starts_with(&[0x1f, 0x8b, 0x08, 0x04]),
+        AFmt::Cram => bytes.starts_with(b"CRAM"),
+    }
+}
+
+fn dict_of(h: &sam::Header) -> Vec<(String, usize)> {
+    h.reference_sequences().iter().map(|(n, m)| (n.to_string(), usize::from(m.length()))).collect()
+}
+
+fn check_aln(c: &AlnCase) -> Verdict {
+    let mut doc = c.doc.clone();
+    // the generic writer cannot set records per slice: one slice holds everything
+    doc.opts.records_per_slice = 0;
+    doc.opts.enc = None;
+    let n = doc.to_noodles();
+    let (header, mut input): (sam::Header, Vec<sam::alignment::RecordBuf>) = if c.empty { (sam::Header::default(), Vec::new()) } else { (n.header.clone(), n.records.clone()) };
+    // stay inside what every one of the four formats can represent (SAM text is the narrowest):
+    // finite floats; a one-base read whose only quality is 9 would render as "*" (= missing)
+    for r in input.iter_mut() {
+        use sam::alignment::record_buf::data::field::Value;
+        use sam::alignment::record_buf::data::field::value::Array;
+        let q = r.quality_scores().as_ref().to_vec();
+        if q == [9] {
+            *r.quality_scores_mut() = vec![10u8].into();
+        }
+        let keys: Vec<_> = r.data().iter().map(|(t, _)| t).collect();
+        for k in keys {
+            match r.data_mut().get_mut(&k) {
+                Some(Value::Float(f)) if !f.is_finite() => *f = 0.5,
+                Some(Value::Array(Array::Float(v))) => {
+                    for x in v.iter_mut() {
+                        if !x.is_finite() {
+                            *x = 0.25;
+                        }
+                    }
+                }
+                _ => {}
+            }
+        }
+    }
+    let hz = gcram::hazards(&doc, &n.flat);
+    let want: Vec<gcram::Canon> = input.iter().map(gcram::canon_of_record).collect();
+    let mut fails = Fails::new();
+    let mut evals = 0u64;
+    let boxed = |v: &[sam::alignment::RecordBuf]| -> Vec<Box<dyn sam::alignment::Record>> { v.iter().map(|r| Box::new(r.clone()) as Box<dyn sam::alignment::Record>).collect() };
+    let compare = |got_h: &sam::Header, got: &[sam::alignment::RecordBuf], what: &str, involves_cram: bool, fails: &mut Fails| {
+        // CRAM recomputes mate fields / TLEN for the listed in-slice chain classes (C07 findings)
+        let relaxed = involves_cram && hz.any();
+        if dict_of(got_h) != dict_of(&header) {
+            fails.push(format!("c20.header.dictionary:{what}"), format!("reference dictionary read back {:?}, written {:?}", dict_of(got_h), dict_of(&header)));
+        }
+        if !involves_cram {
+            let rg = |h: &sam::Header| -> Vec<String> { h.read_groups().keys().map(|k| k.to_string()).collect() };
+            if rg(got_h) != rg(&header) {
+                fails.push(format!("c20.header.read-groups:{what}"), format!("read groups read back {:?}, written {:?}", rg(got_h), rg(&header)));
+            }
+            if got_h.comments().len() != header.comments().len() {
+                fails.push(format!("c20.header.comments:{what}"), format!("{} comments read back, {} written", got_h.comments().len(), header.comments().len()));
+            }
+        }
+        if got.len() != want.len() {
+            fails.push(format!("c20.records.count:{what}"), format!("{} records read back, {} written", got.len(), want.len()));
+            return;
+        }
+        for (i, (g, w)) in got.iter().zip(want.iter()).enumerate() {
+            let mut gc = gcram::canon_of_record(g);
+            let mut wc = w.clone();
+            // SAM text does not carry the storage width of integer tags: compare them by value
+            for x in [&mut gc, &mut wc] {
+                for (_, v) in x.aux.iter_mut() {
+                    let n: Option<i64> = match v {
+                        gcram::AuxVal::I8(a) => Some(*a as i64),
+                        gcram::AuxVal::U8(a) => Some(*a as i64),
+                        gcram::AuxVal::I16(a) => Some(*a as i64),
+                        gcram::AuxVal::U16(a) => Some(*a as i64),
+                        gcram::AuxVal::I32(a) => Some(*a as i64),
+                        gcram::AuxVal::U32(a) => Some(*a as i64),
+                        _ => None,
+                    };
+                    if let Some(n) = n {
+                        *v = gcram::AuxVal::Z(format!("int:{n}"));
+                    }
+                }
+            }
+            if relaxed {
+                for x in [&mut gc, &mut wc] {
+                    x.tlen = 0;
+                    x.mate_ref_id = None;
+                    x.mate_start = None;
+                    x.flags &= !(0x20 | 0x8);
+                    x.name = None;
+                }
+            }
+            if gc != wc {
+                fails.push(format!("c20.record.differs:{what}"), format!("record {i}: read back {} | written {}", trunc(&gcram::canonical_text(&gc), 500), trunc(&gcram::canonical_text(&wc), 500)));
+                return;
+            }
+        }
+    };
+    let mut files: Vec<(AFmt, Vec<u8>)> = Vec::new();
+    for fmt in AFMTS {
+        evals += 1;
+        match write_aln(fmt, &header, &boxed(&input), &n.repository) {
+            Err(e) => {
+                if fmt == AFmt::Cram && hz.any() {
+                    continue; // validated rejection of a listed hazard class
+                }
+                fails.push(format!("c20.write-error:{}", fmt.name()), format!("generic writer failed: {e}"));
+            }
+            Ok(bytes) => {
+                if !magic_ok(fmt, &bytes) {
+                    fails.push(format!("c20.wrong-magic:{}", fmt.name()), format!("requested {} but the stream starts with {:02x?}", fmt.name(), &bytes[..bytes.len().min(8)]));
+                }
+                match read_aln(&bytes, &n.repository) {
+                    Err(e) => fails.push(format!("c20.detect-or-read-error:{}{}", fmt.name(), if c.empty { ":empty" } else { "" }), format!("generic reader failed on the generic writer's own {} output ({} bytes): {e}", fmt.name(), bytes.len())),
+                    Ok((h, recs)) => {
+                        compare(&h, &recs, &format!("{}{}", fmt.name(), if c.empty { ":empty" } else { "" }), fmt == AFmt::Cram, &mut fails);
+                        files.push((fmt, bytes));
+                    }
+                }
+            }
+        }
+    }
+    // conversions: reader(A) piped into writer(B)
+    for (a, bytes) in &files {
+        for b in AFMTS {
+            if *a == b {
+                continue;
+            }
+            evals += 1;
+            let piped = (|| -> io::Result<Vec<u8>> {
+                let mut r = alignment::io::reader::Builder::default().set_reference_sequence_repository(n.repository.clone()).build_from_reader(&bytes[..])?;
+                let h = r.read_header()?;
+                let recs: Vec<Box<dyn sam::alignment::Record>> = r.records(&h).collect::<io::Result<_>>()?;
+                write_aln(b, &h, &recs, &n.repository)
+            })();
+            let what = format!("{}->{}{}", a.name(), b.name(), if c.empty { ":empty" } else { "" });
+            match piped {
+                Err(e) => {
+                    if b == AFmt::Cram && hz.any() {
+                        continue;
+                    }
+                    fails.push(format!("c20.convert-error:{what}"), format!("{e}"));
+                }
+                Ok(out) => match read_aln(&out, &n.repository) {
+                    Err(e) => fails.push(format!("c20.convert-unreadable:{what}"), format!("{e}")),
+                    Ok((h, recs)) => compare(&h, &recs, &what, *a == AFmt::Cram || b == AFmt::Cram, &mut fails),
+                },
+            }
+        }
+    }
+    fails.finish(
+        Pass::new(!input.is_empty(), key_of(c))
+            .evals(evals)
+            .label_if(c.empty, "empty-file")
+            .label_if(!c.empty && input.is_empty(), "header-only")
+            .label_if(input.len() >= 2, "records>=2")
+            .label_if(hz.any(), "cram-hazard-class(relaxed mate/TLEN/name)"),
+    )
+}
+
+// ---------------------------------------------------------------------------------------------
+// variant
+
+#[derive(Clone, Copy, Debug, PartialEq, Eq)]
+pub enum VFmt {
+    Vcf,
+    VcfGz,
+    Bcf,
+}
+
+pub const VFMTS: [VFmt; 3] = [VFmt::Vcf, VFmt::VcfGz, VFmt::Bcf];
+
+impl VFmt {
+    fn name(self) -> &'static str {
+        match self {
+            VFmt::Vcf => "vcf",
+            VFmt::VcfGz => "vcf.gz",
+            VFmt::Bcf => "bcf",
+        }
+    }
+}
+
+#[derive(Clone, Debug, Serialize, Deserialize)]
+pub struct VarCase {
+    pub doc: gvar::VarDoc,
+    pub header_only: bool,
+}
+
+fn write_var(fmt: VFmt, header: &vcf::Header, records: &[Box<dyn vcf::variant::Record>]) -> io::Result<Vec<u8>> {
+    let mut out = Vec::new();
+    {
+        let b = variant::io::writer::Builder::default();
+        let b = match fmt {
+            VFmt::Vcf => b.set_format(variant::io::Format::Vcf).set_compression_method(None),
+            VFmt::VcfGz => b.set_format(variant::io::Format::Vcf).set_compression_method(Some(variant::io::CompressionMethod::Bgzf)),
+            VFmt::Bcf => b.set_format(variant::io::Format::Bcf).set_compression_method(Some(variant::io::CompressionMethod::Bgzf)),
+        };
+        let mut w = b.build_from_writer(&mut out);
+        w.write_header(header)?;
+        for r in records {
+            w.write_record(header, r.as_ref())?;
+        }
+        // the generic variant writer has no finish(): dropping it completes the stream
+    }
+    Ok(out)
+}
+
+fn read_var(bytes: &[u8]) -> io::Result<(vcf::Header, Vec<vcf::variant::RecordBuf>)> {
+    let mut r = variant::io::reader::Builder::default().build_from_reader(bytes)?;
+    let header = r.read_header()?;
+    let mut v = Vec::new();
+    for rec in r.records(&header) {
+        let rec = rec?;
+        v.push(vcf::variant::RecordBuf::try_from_variant_record(&header, rec.as_ref())?);
+    }
+    Ok((header, v))
+}
+
+fn check_var(c: &VarCase) -> Verdict {
+    let hm = &c.doc.header;
+    let header = hm.to_noodles().map_err(|e| vec![Fail::new(shard::HARNESS_PANIC, format!("generated header does not convert: {e}"))])?;
+    let model: Vec<gvar::VarRecord> = if c.header_only { Vec::new() } else { c.doc.records.clone() };
+    let input: Vec<vcf::variant::RecordBuf> = model.iter().map(|r| r.to_noodles()).collect();
+    let boxed = |v: &[vcf::variant::RecordBuf]| -> Vec<Box<dyn vcf::variant::Record>> { v.iter().map(|r| Box::new(r.clone()) as Box<dyn vcf::variant::Record>).collect() };
+    let mut fails = Fails::new();
+    let mut evals = 0u64;
+    // every path through BCF applies the BCF normal form; text-only paths the VCF one
+    let compare = |got: &[vcf::variant::RecordBuf], what: &str, via_bcf: bool, via_text: bool, fails: &mut Fails| {
+        if got.len() != model.len() {
+            fails.push(format!("c20.records.count:{what}"), format!("{} records read back, {} written", got.len(), model.len()));
+            return;
+        }
+        for (i, (g, w)) in got.iter().zip(model.iter()).enumerate() {
+            // every path starts from or passes through the generic writer/reader of a text or a
+            // binary format: apply the text normal form always reached by a text hop and the BCF one
+            // when BCF is involved
+            let norm = |r: gvar::VarRecord| -> gvar::VarRecord {
+                let r = if via_text { r.normalised(gvar::Target::VcfText, hm) } else { r };
+                if via_bcf { r.normalised(gvar::Target::Bcf, hm) } else { r }
+            };
+            let gm = norm(gvar::VarRecord::from_record_buf(g));
+            let wm = norm(w.clone());
+            if let Some((field, detail)) = gm.first_diff(&wm) {
+                fails.push(format!("c20.record.differs:{what}"), format!("record {i} field {field}: {}", trunc(&detail, 600)));
+                return;
+            }
+        }
+    };
+    let mut files: Vec<(VFmt, Vec<u8>)> = Vec::new();
+    for fmt in VFMTS {
+        evals += 1;
+        match write_var(fmt, &header, &boxed(&input)) {
+            Err(e) => fails.push(format!("c20.write-error:{}", fmt.name()), format!("generic writer failed: {e}")),
+            Ok(bytes) => {
+                let magic = match fmt {
+                    VFmt::Vcf => bytes.starts_with(b"##fileformat"),
+                    _ => bytes.starts_with(&[0x1f, 0x8b, 0x08, 0x04]),
+                };
+                if !magic {
+                    fails.push(format!("c20.wrong-magic:{}", fmt.name()), format!("requested {} but the stream starts with {:02x?}", fmt.name(), &bytes[..bytes.len().min(8)]));
+                }
+                match read_var(&bytes) {
+                    Err(e) => fails.push(format!("c20.detect-or-read-error:{}", fmt.name()), format!("generic reader failed on the generic writer's own {} output ({} bytes): {e}", fmt.name(), bytes.len())),
+                    Ok((_, recs)) => {
+                        compare(&recs, fmt.name(), fmt == VFmt::Bcf, fmt != VFmt::Bcf, &mut fails);
+                        files.push((fmt, bytes));
+                    }
+                }
+            }
+        }
+    }
+    for (a, bytes) in &files {
+        for b in VFMTS {
+            if *a == b {
+                continue;
+            }
+            evals += 1;
+            let what = format!("{}->{}", a.name(), b.name());
+            let piped = (|| -> io::Result<Vec<u8>> {
+                let mut r = variant::io::reader::Builder::default().build_from_reader(&bytes[..])?;
+                let h = r.read_header()?;
+                let recs: Vec<Box<dyn vcf::variant::Record>> = r.records(&h).collect::<io::Result<_>>()?;
+                write_var(b, &h, &recs)
+            })();
+            match piped {
+                Err(e) => {
+                    // listed class: a sample whose GT consists of missing alleles only reads from VCF
+                    // text as a value the BCF writer rejects
+                    let gt_all_missing = serde_json::to_string(&model).map(|j| j.contains("\"Genotype\":[[null,")).unwrap_or(false)
+                        && model.iter().any(|r| r.samples.iter().flatten().any(|v| matches!(v, Some(gvar::SampleValue::Genotype(g)) if !g.is_empty() && g.iter().all(|a| a.0.is_none()))));
+                    let class = if gt_all_missing && b == VFmt::Bcf { ".gt-all-missing" } else { "" };
+                    fails.push(format!("c20.convert-error{class}:{what}"), format!("{e}"));
+                }
+                Ok(out) => match read_var(&out) {
+                    Err(e) => fails.push(format!("c20.convert-unreadable:{what}"), format!("{e}")),
+                    Ok((_, recs)) => compare(&recs, &what, *a == VFmt::Bcf || b == VFmt::Bcf, *a != VFmt::Bcf || b != VFmt::Bcf, &mut fails),
+                },
+            }
+        }
+    }
+    fails.finish(Pass::new(!model.is_empty(), key_of(c)).evals(evals).label_if(model.is_empty(), "header-only").label_if(model.len() >= 2, "records>=2"))
+}
 
 pub fn property() -> Property {
-    Property { id: "C20", level: "exploration", rule: "", assumptions: vec![], subs: vec![], max_parallel: 16 }
+    Property {
+        id: "C20",
+        level: "exploration",
+        rule: "generated documents × all (format, compression) ∈ {SAM, SAM.gz, BAM, CRAM} / {VCF, VCF.gz, BCF} × all source→target pairs (enumerated per document), incl. empty files and header-only files; evaluations counts write/detect/convert runs",
+        assumptions: vec![
+            "equality of the records read back by the detecting reader decides detection (a mis-detected stream cannot parse to equal records); the stream's leading magic is checked independently".into(),
+            "record comparison uses the SAM-level normal form of gen::cram (=/X→M, bases upper-cased, aux sorted by tag) and the VCF/BCF normal forms of gen::var; for the listed CRAM in-slice mate-chain classes (C07 findings) mate fields, TLEN and names are not compared on paths through CRAM".into(),
+        ],
+        subs: vec![
+            sub(
+                "alignment",
+                "non-trivial = document with ≥1 record; distinct by hash of the document",
+                |_tier| {
+                    (gcram::doc_strategy(gcram::Params::robust()), prop_oneof![9 => Just(false), 1 => Just(true)]).prop_map(|(doc, empty)| AlnCase { doc, empty }).boxed()
+                },
+                check_aln,
+                3_000,
+                80_000,
+            )
+            .boxed(),
+            sub(
+                "variant",
+                "non-trivial = document with ≥1 record; distinct by hash of the document",
+                |tier| (gvar::document(tier, &gvar::Mode::bcf_safe()), prop_oneof![9 => Just(false), 1 => Just(true)]).prop_map(|(doc, header_only)| VarCase { doc, header_only }).boxed(),
+                check_var,
+                6_000,
+                150_000,
+            )
+            .boxed(),
+        ],
+        max_parallel: 16,
+    }
 }
